@@ -772,6 +772,37 @@ def run(ctx, repo, tier):
         ctx.inconclusive("IDEMP", "C10.once", "generator use not recognised", gp.where)
     # ---------------- hand-written rotation of row-vector coordinates
     row_vector_rotation(ctx, repo, pci)
+    # ---------------- a frame re-seek reloads the coordinates from the file
+    reseeks = []
+    for mname_, mfi_ in sorted(pci.methods.items()):
+        for n in ast.walk(mfi_.node):
+            if isinstance(n, ast.Expr) and isinstance(n.value, ast.Subscript) and isinstance(n.value.value, ast.Attribute) and \
+                    n.value.value.attr == "trajectory" and src(n.value.value.value).startswith(("self.static_molecule", "self.moving_molecule")):
+                reseeks.append((mfi_, n))
+    rd_ci = repo.cls("molgri.io", "OneMoleculeReader")
+    rd_init = rd_ci.find_method("__init__") if rd_ci is not None else None
+    ctx.instance("RESET")
+    if reseeks:
+        on_the_fly = rd_init is not None and any(isinstance(c_, ast.Call) and isinstance(c_.func, ast.Attribute) and c_.func.attr == "add_transformations"
+                                                 for c_ in ast.walk(rd_init.node))
+        in_memory = rd_init is not None and any(isinstance(c_, ast.Call) and isinstance(c_.func, ast.Attribute) and c_.func.attr in ("translate", "rotate")
+                                                for c_ in ast.walk(rd_init.node))
+        ctx.analysed(reseeks[0][0])
+        if rd_init is not None:
+            ctx.analysed(rd_init)
+        if not on_the_fly and in_memory:
+            ctx.violate("RESET", "C10.reseek", "the pseudotrajectory re-seeks a frame of a molecule (`.trajectory[k]`): readers that can hold several "
+                        "frames (xyz, pdb) then re-read the coordinates from the file, and the centring that the reader applied IN MEMORY "
+                        "(atoms.translate) is thrown away - molecule 1 is no longer at the origin and molecule 2 sits at com_file + position_k "
+                        "in every frame", reseeks[0][0].where, src(reseeks[0][1])[:100],
+                        witness="reader centres with atoms.translate(-com), no on-the-fly transformation is registered")
+        elif on_the_fly:
+            ctx.ok("RESET", "C10.reseek", "frames are re-sought, the reader's centring is an on-the-fly transformation that is re-applied on every "
+                   "frame load", reseeks[0][0].where)
+        else:
+            ctx.inconclusive("RESET", "C10.reseek", "frames are re-sought; how the reader centres the molecules was not recognised", reseeks[0][0].where)
+    else:
+        ctx.ok("RESET", "C10.reseek", "the pseudotrajectory never re-seeks a frame of the molecules (in-memory coordinates stay as placed)", where)
     # ---------------- sibling selections of the second molecule
     selection_siblings(ctx, repo, "C10")
     # ---------------- quaternion convention in assignment
